@@ -74,6 +74,9 @@ TRUSTED_EXTRA = [
     "numpy RandomState(seed).randint / randn: the bootstrap index draws and smoothing noise are regenerated by the harness "
     "from the seed literal found in confidence_interval_bootstrap and handed to the model; Lean checks their shape (B x k)",
     "gaussian_kde ('mode' statistic) is not modelled and never requested",
+    "harness/vectrans_bh.py (on top of harness/vectrans.py) + lean/CnvVerif/Model/NpVecBh.lean: the typed reading of the "
+    "numpy vector code of bintest.p_adjust_bh (Generated/ExprsBh.lean; rules listed at the top of vectrans_bh.py); the "
+    "permutation of the third-party argsort is a parameter of the generated definition",
 ]
 
 PY_ONLY = ("repr", "call", "inter_rev", "how", "cli_noout")  # how the real code is called: nothing the model sees
